@@ -1,4 +1,5 @@
 import LyModel.Valid.FullDefs
+import LyModel.Valid.LemmasCasesFix
 /-!
 # `lyd_validate_new` on freshly built siblings over the full schema language; `dupCaseL` against the specification
 
@@ -149,10 +150,11 @@ end
 
 mutual
 theorem choiceR_fresh_T (X : SchemaX) (cx : Cx) : ∀ (t : STree) (sibs : List DNode), (∀ n ∈ sibs, n.flags.new = true) →
+    (∀ n ∈ sibs, n.flags.dflt = false) →
     FreshR sibs (choiceRNode X cx t sibs) (dupCaseT (hasInst sibs) t) ∧
     FreshR sibs (choiceRCase X cx t sibs) (dupCaseK (hasInst sibs) t)
-  | .mk s i ks, sibs, hn => by
-    have ihL := choiceR_fresh_L X cx ks sibs hn
+  | .mk s i ks, sibs, hn, hd => by
+    have ihL := choiceR_fresh_L X cx ks sibs hn hd
     constructor
     · rw [choiceRNode]
       split
@@ -165,7 +167,7 @@ theorem choiceR_fresh_T (X : SchemaX) (cx : Cx) : ∀ (t : STree) (sibs : List D
           exact FreshR.nil []
         · obtain ⟨c1, c2, c3, c4⟩ := casesStep_fresh X cx (.mk s i ks) sibs hn
           dsimp only
-          rw [c1, dupCaseT, hk, Bool.true_and]
+          rw [casesStepQ_fresh X cx _ sibs hn hd, c1, dupCaseT, hk, Bool.true_and]
           exact FreshR.seq (r1 := casesStep X cx (.mk s i ks) sibs) ⟨c1, c2, c3, c4⟩ ihL.2
       · rename_i hk
         rw [dupCaseT]
@@ -175,14 +177,15 @@ theorem choiceR_fresh_T (X : SchemaX) (cx : Cx) : ∀ (t : STree) (sibs : List D
     · rw [choiceRCase, dupCaseK]
       exact ihL.1
 theorem choiceR_fresh_L (X : SchemaX) (cx : Cx) : ∀ (ks : List STree) (sibs : List DNode), (∀ n ∈ sibs, n.flags.new = true) →
+    (∀ n ∈ sibs, n.flags.dflt = false) →
     FreshR sibs (choiceRL X cx ks sibs) (dupCaseL (hasInst sibs) ks) ∧
     FreshR sibs (choiceRCases X cx ks sibs) (dupCaseCs (hasInst sibs) ks)
-  | [], sibs, _ => by
+  | [], sibs, _, _ => by
     rw [choiceRL, choiceRCases, dupCaseL, dupCaseCs]
     exact ⟨FreshR.nil sibs, FreshR.nil sibs⟩
-  | k :: rest, sibs, hn => by
-    have ihT := choiceR_fresh_T X cx k sibs hn
-    have ihL := choiceR_fresh_L X cx rest sibs hn
+  | k :: rest, sibs, hn, hd => by
+    have ihT := choiceR_fresh_T X cx k sibs hn hd
+    have ihL := choiceR_fresh_L X cx rest sibs hn hd
     constructor
     · rw [choiceRL, dupCaseL]
       rw [ihT.1.1]
@@ -192,12 +195,13 @@ theorem choiceR_fresh_L (X : SchemaX) (cx : Cx) : ∀ (ks : List STree) (sibs : 
       exact FreshR.seq ihT.2 ihL.2
 end
 
-/-- **`lyd_validate_choice_r` on freshly built siblings**: nothing is deleted, the errors are `DupCase`, there is none iff no choice
+/-- **`lyd_validate_choice_r` on freshly built siblings** (all new, none default-flagged; both variants of F321): nothing is deleted, the errors are `DupCase`, there is none iff no choice
 of the level, searched through all cases, has data of two cases -/
 theorem choiceRL_fresh (X : SchemaX) (cx : Cx) : ∀ (sk : List STree) (sibs : List DNode), (∀ n ∈ sibs, n.flags.new = true) →
+    (∀ n ∈ sibs, n.flags.dflt = false) →
     (choiceRL X cx sk sibs).1 = sibs ∧ (choiceRL X cx sk sibs).2.evs = [] ∧ (∀ e ∈ (choiceRL X cx sk sibs).2.errs, e.kind = .dupCase) ∧
     ((choiceRL X cx sk sibs).2.errs = [] ↔ dupCaseL (hasInst sibs) sk = false) :=
-  fun sk sibs hn => (choiceR_fresh_L X cx sk sibs hn).1
+  fun sk sibs hn hd => (choiceR_fresh_L X cx sk sibs hn hd).1
 
 /-! ## `lyd_validate_new` on a fresh sibling list, any schema -/
 
@@ -213,7 +217,7 @@ theorem validateNew_fresh_full (X : SchemaX) (o : VOpts) (cx : Cx) (hop : o.oper
   have hall := (isFreshL_all ks).1 hf
   have hnew : ∀ n ∈ ks, n.flags.new = true := fun n hn => by rw [isFreshN_flags (hall n hn)]
   have hnd : ∀ n ∈ ks, n.flags.dflt = false := fun n hn => by rw [isFreshN_flags (hall n hn)]
-  obtain ⟨c1, _, c3, c4⟩ := choiceRL_fresh X cx (X.kidsOf cx.parent) ks hnew
+  obtain ⟨c1, _, c3, c4⟩ := choiceRL_fresh X cx (X.kidsOf cx.parent) ks hnew hnd
   have hloop := loopErrs_nil_iff X o cx.keysOld hop ks [] hnew
   simp only [List.map_nil, List.not_mem_nil, false_imp_iff, implies_true, true_and] at hloop
   unfold validateNew
